@@ -387,6 +387,13 @@ func lex(s string) []string {
 			for j < len(s) && (isIdentStart(s[j]) || (s[j] >= '0' && s[j] <= '9')) {
 				j++
 			}
+			// name#k: k-th local of that name
+			if j+1 < len(s) && s[j] == '#' && s[j+1] >= '0' && s[j+1] <= '9' {
+				j++
+				for j < len(s) && s[j] >= '0' && s[j] <= '9' {
+					j++
+				}
+			}
 			toks = append(toks, s[i:j])
 			i = j
 		case c >= '0' && c <= '9':
